@@ -19,10 +19,12 @@ import os
 
 from ..extract import HEADER, Src, lean_list, lean_str
 from ..pyexpr import Untranslatable, to_lean
+from ..pystmt_dispatch import DispatchProgram
 from ..pystmt_text import CastProgram, Program
 
 PINNED_TEXT_BRANCH = os.path.join(os.path.dirname(os.path.abspath(__file__)), "c08_IsoText.pinned.lean")
 PINNED_CASTS = os.path.join(os.path.dirname(os.path.abspath(__file__)), "c08_IsoCast.pinned.lean")
+PINNED_DISPATCH = os.path.join(os.path.dirname(os.path.abspath(__file__)), "c08_IsoDispatch.pinned.lean")
 
 PIN_SLICES = [
     [[0, 4], [5, 7], [8, 10]],
@@ -204,11 +206,29 @@ def generate(o):
             raise KeyError("three datetime(...) calls")
         return [c[1] for c in calls]
 
-    def epoch_types():
+    def epoch_test():
+        """The class table in front of the Unix-seconds branch (the `if` whose body calls `fromtimestamp`) and how it is consulted:
+        ["exact", names] for `input_type in (A, B, ...)` / `type(value) in (...)` (identity of the class), ["subclass", names] for
+        `isinstance(value, (A, B, ...))` (the class or any subclass of it)."""
         for n in ast.walk(fn()):
-            if isinstance(n, ast.Compare) and isinstance(n.ops[0], ast.In) and isinstance(n.left, ast.Name) and n.left.id == "input_type":
-                return [ast.unparse(e) for e in n.comparators[0].elts]
-        raise KeyError("epoch type tuple")
+            if not isinstance(n, ast.If):
+                continue
+            if not any(isinstance(m, ast.Attribute) and m.attr == "fromtimestamp" for st in n.body for m in ast.walk(st)):
+                continue
+            if n.orelse:
+                raise KeyError("epoch branch with else")
+            t = n.test
+            names = lambda seq: [ast.unparse(e) for e in seq.elts]
+            if isinstance(t, ast.Compare) and len(t.ops) == 1 and isinstance(t.ops[0], ast.In) and isinstance(t.comparators[0], (ast.Tuple, ast.List, ast.Set)):
+                left = ast.unparse(t.left)
+                if left in ("input_type", "type(value)"):
+                    return ["exact", names(t.comparators[0])]
+            if isinstance(t, ast.Call) and isinstance(t.func, ast.Name) and t.func.id == "isinstance" and len(t.args) == 2 and not t.keywords \
+                    and ast.unparse(t.args[0]) == "value":
+                cl = t.args[1]
+                return ["subclass", names(cl) if isinstance(cl, ast.Tuple) else [ast.unparse(cl)]]
+            raise KeyError("epoch type test of an unknown shape")
+        raise KeyError("epoch branch")
 
     def cast_bodies():
         """parse_date / parse_time / parse_timestamp: statements with string constants blanked."""
@@ -308,6 +328,25 @@ def generate(o):
 
     disp = o.item("iso.dispatch", dispatch, PIN_DISPATCH)
 
+    def dispatch_program():
+        """The statements of the `try` body in front of the string branch as the Lean `do` block `Gen.IsoDispatch.dispatch`."""
+        return DispatchProgram("dispatch", fn()).lean()
+
+    def decorators():
+        return [["@" + ast.unparse(d) for d in fn().decorator_list], ast.unparse(fn().args)]
+
+    try:
+        pinned_dp = open(PINNED_DISPATCH).read()
+    except OSError:
+        pinned_dp = ""
+    dp = o.item("iso.dispatch_program", dispatch_program, pinned_dp)
+    deco, sig = o.item("iso.decorators", decorators, [[], "value"])
+    o.files["IsoDispatch.lean"] = (HEADER + "import OrsoVerif.Model.IsoDispatchPrim\nnamespace Gen.IsoDispatch\nopen _root_.Iso\n\n"
+                                   + "/-- decorators of parse_iso (a cache between the caller and the `try` would sit here) -/\n"
+                                   + "def decorators : List String := %s\n" % lean_list(deco, lean_str)
+                                   + "/-- its parameters -/\ndef signature : String := %s\n\n" % lean_str(sig)
+                                   + dp + "end Gen.IsoDispatch\n")
+
     try:
         pinned_tb = open(PINNED_TEXT_BRANCH).read()
     except OSError:
@@ -321,7 +360,7 @@ def generate(o):
         "result = parse_iso(x); if result is None: raise ValueError(''); return result",
     ])
     c = o.item("iso.caught", caught, ["ValueError", "TypeError", "OverflowError", "OSError"])
-    et = o.item("iso.epoch_types", epoch_types, ["int", "numpy.int64", "float", "numpy.float64"])
+    em, et = o.item("iso.epoch_types", epoch_test, ["exact", ["int", "numpy.int64", "float", "numpy.float64"]])
     zc = o.item("iso.z_char", z_char, "Z")
     pc = o.item("iso.plus_char", plus_char, "+")
     lw = o.item("iso.expr.len_window", len_window, PIN["lenWindow"])
@@ -345,6 +384,8 @@ def generate(o):
     t += "def caught : List String := %s\n" % lean_list(c, lean_str)
     t += "/-- types sent to the epoch branch -/\n"
     t += "def epochTypes : List String := %s\n" % lean_list(et, lean_str)
+    t += "/-- the table is consulted with `isinstance` (a class or any subclass of it) rather than by identity of `type(value)` -/\n"
+    t += "def epochBySubclass : Bool := %s\n" % ("true" if em == "subclass" else "false")
     t += "def zChar : Char := %s\n" % lean_char(zc)
     t += "def plusChar : Char := %s\n" % lean_char(pc)
     t += prop("lenWindow", "(len : Int)", lw, "`%s` (the length window of the text path)" % "10 <= len(value) <= 33")
